@@ -36,6 +36,10 @@ CLAIMED = {
          'C12_conservation/C12_once prove for every history of atomic scheduler callbacks (submissions with and without named pilots, add/remove incl. re-add, state notifications) that with unique uids every task is forwarded at most once, never both forwarded and waiting, and is never lost; C12_named, C12_early_flush, C12_waits, C12_eligible, C12_removed_gone give the binding clauses (named pilot, waiting, only pilots in _pids, removed pilots leave _pids); C12_bf_window proves that a backfilling pass only assigns to ADDED pilots inside the state window and below their high-water mark. The round-robin balance clause and the backfilling usage-returns-to-zero clause are checked by the monitor on the real code and by the exact model/implementation comparison, not yet by a theorem (partial).',
          'Trusted: Lean kernel, harness; callbacks are atomic (they run under the component locks); _assign_pilot does not raise; add_pilots dicts carry the state already known; conservation for backfilling and RR balance not yet proved in Lean.',
          'DESIGN.md section 6 C12'),
+ 'C18': ('Lean 4 proof (list/sublist/nodup reasoning over the node-file parser, node list construction and the reduction/reservation step) + sampled differential tie to the real Torque/CCM/Cobalt/LSF/PBSPro/Slurm/Fork resource managers',
+         'C18_parse proves that a node file yields every host exactly once (repeated lines are counted, blank lines are not hosts), C18_parse_cpn that a configured cores_per_node fixes the slot count, C18_node_list that indices are 0..n-1 and unique with the configured cores/GPUs per node, markDown_spec the blocked-core marking, and C18_final that whenever initialisation succeeds the offered list is non-empty, no longer than the requested node count, duplicate-free in its indices, disjoint from the agent and service node lists, and made only of allocated nodes with blocked cores/GPUs marked. The model initRM is compared with RMInfo produced by the real _init_from_scratch of seven resource managers on generated node files and environments; the registry hand-over (RMInfo -> dict -> RMInfo) is checked to be the identity on every case.',
+         'Trusted: Lean kernel, harness (environment variables, node files, scripted ssh probe and qstat failure, host-name abstraction); PBSPro exec_vnode parsing, SLURM host-list expressions (ru.get_hostlist) and YARN are not modelled.',
+         'DESIGN.md section 6 C18'),
 }
 
 NOT_YET = {}
